@@ -1,42 +1,1457 @@
-//! exploration
-use verif_harness::world::*;
-use saito_core::core::consensus::burnfee::BurnFee;
+//! C08 — routing work gates block production; payouts go only to eligible parties.
+//!
+//! Part 1  burnfee.rs (`return_routing_work_needed_to_produce_block_in_nolan`,
+//!         `calculate_burnfee_for_block`) bit-for-bit against the Flocq model
+//!         (coq/model/BurnFee.v) + direct oracle (zero after two heartbeats, antitone).
+//! Part 2  transactions with real routing paths (`add_hop`) and broken / misdirected /
+//!         self-hop / forged paths: `generate_total_work`, `validate_routing_path`,
+//!         `get_winning_routing_node` against coq/model/Routing.v + direct oracle.
+//! Part 3  real chains (world.rs): the routing-work gate of `Block::validate` with work
+//!         just short / exact / over, and the fee transaction of accepted blocks that
+//!         carry a golden ticket (payees, bound) against the model + direct oracle.
+use std::collections::BTreeSet;
+use std::io::Write as _;
+use std::panic::{catch_unwind, AssertUnwindSafe};
 
-#[tokio::main(flavor = "current_thread")]
-async fn main() {
-    verif_harness::common::init_log();
-    let params = Params { genesis_period: 100, heartbeat: 100, ..Params::default() };
-    let mut node = Node::new(&params, 1);
-    let (pka, ska) = keypair(2);
-    let (pkb, skb) = keypair(3);
-    let mut iss = vec![];
-    for _ in 0..10 { iss.push((pka, 100_000_000u64)); }
-    let g = make_genesis(&node, 1000, &iss).await.unwrap();
-    println!("genesis {:?} burnfee {} txs {}", node.add_block(g.clone()).await, g.burnfee, g.transactions.len());
-    // block 2: tx with fee 1000, hop A->creator
-    let s0 = outputs_of(&g, 0);
-    let ts2 = 1000 + 500;
-    let mut tx = make_tx(&s0[0..1], &[(pka, s0[0].amount - 1000)], &ska, ts2);
-    tx.add_hop(&ska, &pka, &node.pk);
-    let b2 = make_block(&node, g.hash, ts2, vec![tx], false, 0).await.unwrap();
-    println!("b2 work {} fees {} burnfee {} -> {:?}", b2.total_work, b2.total_fees, b2.burnfee, node.add_block(b2.clone()).await);
-    for dt in [1u64, 50, 100, 199, 200] {
-        println!("needed dt={} : {}", dt, BurnFee::return_routing_work_needed_to_produce_block_in_nolan(b2.burnfee, ts2 + dt, ts2, 100));
+use saito_core::core::consensus::block::Block;
+use saito_core::core::consensus::burnfee::BurnFee;
+use saito_core::core::consensus::golden_ticket::GoldenTicket;
+use saito_core::core::consensus::hop::Hop;
+use saito_core::core::consensus::slip::{Slip, SlipType};
+use saito_core::core::consensus::transaction::{Transaction, TransactionType};
+use saito_core::core::defs::{SaitoHash, SaitoPrivateKey, SaitoPublicKey};
+use saito_core::core::util::crypto::{hash, sign, verify};
+use verif_harness::common::{jstr, Args, Summary};
+use verif_harness::gal;
+use verif_harness::rng::Rng;
+use verif_harness::world::*;
+
+const SENTINEL: u64 = 10_000_000_000_000_000_000;
+const TWO64: u128 = 1u128 << 64;
+
+// ------------------------------------------------------------------ helpers
+
+fn panic_msg(e: Box<dyn std::any::Any + Send>) -> String {
+    if let Some(s) = e.downcast_ref::<String>() {
+        s.clone()
+    } else if let Some(s) = e.downcast_ref::<&str>() {
+        s.to_string()
+    } else {
+        "?".to_string()
     }
-    // block 3 candidate: dt = 100 -> needed 500_000
-    let s1 = outputs_of(&g, 1);
-    let ts3 = ts2 + 100;
-    let need = BurnFee::return_routing_work_needed_to_produce_block_in_nolan(b2.burnfee, ts3, ts2, 100);
-    let mut tx = make_tx(&s1[0..1], &[(pka, s1[0].amount - (need - 1))], &ska, ts3);
-    tx.add_hop(&ska, &pka, &node.pk);
-    let b3 = make_block(&node, b2.hash, ts3, vec![tx], false, 0).await.unwrap();
-    println!("b3 short work {} need {} -> {:?}", b3.total_work, need, node.add_block(b3.clone()).await);
-    println!("tip {}", node.snapshot().tip_id);
-    let mut tx = make_tx(&s1[0..1], &[(pka, s1[0].amount - 2*need)], &ska, ts3);
-    tx.add_hop(&ska, &pka, &pkb);
-    tx.add_hop(&skb, &pkb, &node.pk);
-    let b3 = make_block(&node, b2.hash, ts3, vec![tx], true, 7).await.unwrap();
-    println!("b3 exact work {} need {} -> {:?}", b3.total_work, need, node.add_block(b3.clone()).await);
-    println!("tip {}", node.snapshot().tip_id);
-    for t in &b3.transactions { println!("tx type {:?} to {:?}", t.transaction_type, t.to.iter().map(|s| (s.public_key[1], s.amount, s.slip_type)).collect::<Vec<_>>()); }
+}
+
+/// panic message -> site number of the Coq models
+fn panic_site(msg: &str) -> u64 {
+    if msg.contains("multiply with overflow") {
+        801
+    } else if msg.contains("add with overflow") {
+        811
+    } else if msg.to_lowercase().contains("division by zero") {
+        812
+    } else if msg.contains("winning routing node should") {
+        813
+    } else if msg.contains("index out of bounds") {
+        814
+    } else if msg.contains("winning tx doesn't have fees") {
+        815
+    } else if msg.contains("buffer to be valid") {
+        816
+    } else {
+        899
+    }
+}
+
+/// observation encoding shared with `BurnFee.obs_res`: value, or 2^64 + site
+fn obs(r: Result<u64, u64>) -> String {
+    match r {
+        Ok(v) => format!("{}", v),
+        Err(site) => format!("{}", TWO64 + site as u128),
+    }
+}
+
+/// are u64 overflow checks compiled in (debug profile)?
+fn overflow_checks_on() -> bool {
+    let x = std::hint::black_box(u64::MAX);
+    catch_unwind(|| std::hint::black_box(x + std::hint::black_box(1))).is_err()
+}
+
+/// 32 big-endian bytes as a decimal literal
+fn u256_dec(b: &[u8; 32]) -> String {
+    let mut limbs: Vec<u32> = b.chunks(4).map(|c| u32::from_be_bytes(c.try_into().unwrap())).collect();
+    let mut digits: Vec<u8> = vec![];
+    loop {
+        let mut rem: u64 = 0;
+        let mut all_zero = true;
+        for l in limbs.iter_mut() {
+            let cur = (rem << 32) | (*l as u64);
+            *l = (cur / 1_000_000_000) as u32;
+            rem = cur % 1_000_000_000;
+            if *l != 0 {
+                all_zero = false;
+            }
+        }
+        for _ in 0..9 {
+            digits.push((rem % 10) as u8);
+            rem /= 10;
+        }
+        if all_zero {
+            break;
+        }
+    }
+    while digits.len() > 1 && *digits.last().unwrap() == 0 {
+        digits.pop();
+    }
+    digits.iter().rev().map(|d| (b'0' + d) as char).collect()
+}
+
+fn be32(x: u128) -> [u8; 32] {
+    let mut out = [0u8; 32];
+    out[16..32].copy_from_slice(&x.to_be_bytes());
+    out
+}
+
+struct Keys {
+    v: Vec<(SaitoPublicKey, SaitoPrivateKey)>,
+}
+impl Keys {
+    fn new(n: u8) -> Keys {
+        Keys { v: (1..=n).map(keypair).collect() }
+    }
+    /// interned key: 0 = zero key, i+1 = i-th key of the pool
+    fn id(&self, pk: &SaitoPublicKey) -> u64 {
+        if pk.iter().all(|b| *b == 0) {
+            return 0;
+        }
+        for (i, (k, _)) in self.v.iter().enumerate() {
+            if k == pk {
+                return i as u64 + 1;
+            }
+        }
+        999
+    }
+}
+
+fn hop_sig_ok(tx: &Transaction, hop: &Hop) -> bool {
+    let bytes: Vec<u8> = [tx.signature.as_slice(), hop.to.as_slice()].concat();
+    verify(bytes.as_slice(), &hop.sig, &hop.from)
+}
+
+/// (from0, fees, path) of a transaction as the Gallina triple used by the case files
+fn abs_tx(tx: &Transaction, fees: u64, keys: &Keys) -> String {
+    let from0 = match tx.from.first() {
+        Some(s) => format!("Some {}", keys.id(&s.public_key)),
+        None => "None".to_string(),
+    };
+    let hops: Vec<String> = tx
+        .path
+        .iter()
+        .map(|h| format!("({}, {}, {})", keys.id(&h.from), keys.id(&h.to), gal::boolean(hop_sig_ok(tx, h))))
+        .collect();
+    format!("({}, {}, {})", from0, fees, gal::list(&hops))
+}
+
+/// fees as the harness computes them (independently of generate_total_fees)
+fn fees_of(tx: &Transaction) -> u64 {
+    let tin: u128 = tx.from.iter().filter(|s| s.slip_type != SlipType::Bound).map(|s| s.amount as u128).sum();
+    let tout: u128 = tx.to.iter().filter(|s| s.slip_type != SlipType::Bound).map(|s| s.amount as u128).sum();
+    if tin > tout {
+        (tin - tout) as u64
+    } else {
+        0
+    }
+}
+
+fn contiguous(tx: &Transaction) -> bool {
+    (1..tx.path.len()).all(|i| tx.path[i].from == tx.path[i - 1].to)
+}
+
+fn halve_n(mut w: u64, n: usize) -> u64 {
+    for _ in 0..n {
+        w -= w / 2;
+    }
+    w
+}
+
+fn write_shards_off(
+    dir: &str,
+    name: &str,
+    header: &str,
+    case_type: &str,
+    cases: &[String],
+    shards: usize,
+    offset: usize,
+) -> Vec<String> {
+    std::fs::create_dir_all(dir).unwrap();
+    let shards = shards.max(1).min(cases.len().max(1));
+    let mut files = vec![];
+    for k in 0..shards {
+        let path = format!("{}/{}_{}.v", dir, name, k);
+        let mut f = std::io::BufWriter::new(std::fs::File::create(&path).unwrap());
+        writeln!(f, "{}", header).unwrap();
+        writeln!(f, "Open Scope N_scope.").unwrap();
+        writeln!(f, "Definition cases : list (N * ({})) := [", case_type).unwrap();
+        let mut first = true;
+        for (i, c) in cases.iter().enumerate() {
+            if i % shards != k {
+                continue;
+            }
+            if !first {
+                writeln!(f, ";").unwrap();
+            }
+            first = false;
+            write!(f, "({}, {})", i + offset, c).unwrap();
+        }
+        writeln!(f, "].").unwrap();
+        writeln!(
+            f,
+            "Definition bad : list N := flat_map (fun ic => if check (snd ic) then [] else [fst ic]) cases."
+        )
+        .unwrap();
+        writeln!(f, "Eval vm_compute in bad.").unwrap();
+        files.push(path);
+    }
+    files
+}
+
+struct Ctx {
+    args: Args,
+    dbg: bool,
+    summary: Summary,
+    files: Vec<String>,
+    distinct: BTreeSet<String>,
+}
+impl Ctx {
+    fn next_case(&self) -> usize {
+        self.summary.case_descs.len()
+    }
+    fn nontrivial(&mut self, key: String) {
+        if self.distinct.insert(key) {
+            self.summary.nontrivial += 1;
+        }
+    }
+}
+
+// ------------------------------------------------------------------ part 1: burnfee.rs
+
+fn real_work(bf: u64, ts: u64, prev: u64, hb: u64) -> Result<u64, u64> {
+    catch_unwind(|| BurnFee::return_routing_work_needed_to_produce_block_in_nolan(bf, ts, prev, hb))
+        .map_err(|e| panic_site(&panic_msg(e)))
+}
+fn real_burnfee(bf: u64, ts: u64, prev: u64, hb: u64) -> Result<u64, u64> {
+    catch_unwind(|| BurnFee::calculate_burnfee_for_block(bf, ts, prev, hb)).map_err(|e| panic_site(&panic_msg(e)))
+}
+
+fn rand_bits(rng: &mut Rng, max_bits: u64) -> u64 {
+    let bits = rng.range(0, max_bits);
+    if bits == 0 {
+        0
+    } else if bits >= 64 {
+        rng.next() | (1 << 63)
+    } else {
+        (rng.next() & ((1u64 << bits) - 1)) | (1u64 << (bits - 1))
+    }
+}
+
+/// antitone oracle on the implementation for one (bf, prev, hb) and t1 <= t2
+fn oracle_antitone(ctx: &mut Ctx, case: usize, bf: u64, prev: u64, t1: u64, t2: u64, hb: u64, desc: &str) {
+    let (w1, w2) = match (real_work(bf, t1, prev, hb), real_work(bf, t2, prev, hb)) {
+        (Ok(a), Ok(b)) => (a, b),
+        _ => return,
+    };
+    if w2 > w1 {
+        let what = format!(
+            "routing work requirement increases with elapsed time: bf={} prev={} hb={}: work(ts={})={} < work(ts={})={}",
+            bf, prev, hb, t1, w1, t2, w2
+        );
+        if t1 <= prev && bf > SENTINEL {
+            ctx.summary.known_hit("sentinel-below-max-work", case, &what);
+        } else {
+            ctx.summary.oracle_failure(case, &what, desc);
+        }
+    }
+}
+
+fn part1(ctx: &mut Ctx, rng: &mut Rng) {
+    let thorough = ctx.args.tier == "thorough";
+    let mut quads: Vec<(u64, u64, u64, u64, &'static str)> = vec![]; // bf, ts, prev, hb, kind
+    let bfs: [u64; 19] = [
+        0,
+        1,
+        2,
+        49_999_999,
+        50_000_000,
+        100_000_000,
+        (1 << 53) - 1,
+        1 << 53,
+        (1 << 53) + 1,
+        SENTINEL - 1,
+        SENTINEL,
+        SENTINEL + 1,
+        (1 << 63) - 1,
+        1 << 63,
+        (1 << 63) + 1,
+        u64::MAX - 1,
+        u64::MAX,
+        12_345_678_901_234_567,
+        99_999_999,
+    ];
+    let hbs: [u64; 3] = [1, 100, 5000];
+    let prevs: [u64; 4] = [0, 1000, 1_700_000_000_000, u64::MAX - 20_000];
+    for &bf in &bfs {
+        for &hb in &hbs {
+            for &prev in &prevs {
+                for dt in [0, 1, 2, hb - 1, hb, hb + 1, 2 * hb - 1, 2 * hb, 2 * hb + 1, 3 * hb] {
+                    if let Some(ts) = prev.checked_add(dt) {
+                        quads.push((bf, ts, prev, hb, "boundary"));
+                    }
+                }
+                // misordered timestamps
+                if prev > 0 {
+                    quads.push((bf, prev - 1, prev, hb, "misordered"));
+                    quads.push((bf, prev / 2, prev, hb, "misordered"));
+                    quads.push((bf, 0, prev, hb, "misordered"));
+                }
+            }
+        }
+    }
+    // heartbeat extremes: 2 * heartbeat overflows u64 (debug: panic, release: wrap)
+    for &hb in &[0u64, 1 << 62, (1 << 63) - 1, 1 << 63, (1 << 63) + 1, u64::MAX, (1 << 63) + 50] {
+        for &bf in &[0u64, 1, 50_000_000, u64::MAX] {
+            for &(prev, ts) in &[(1000u64, 1000u64), (1000, 1001), (1000, 1150), (0, u64::MAX), (5, 3)] {
+                quads.push((bf, ts, prev, hb, "heartbeat-extreme"));
+            }
+        }
+    }
+    let n_random = if thorough { 300_000 } else { 30_000 };
+    for i in 0..n_random {
+        let bf = match i % 4 {
+            0 => rand_bits(rng, 64),
+            1 => rng.range(1, 1_000_000_000_000),
+            2 => rand_bits(rng, 40),
+            _ => rng.next(),
+        };
+        let hb = match rng.below(8) {
+            0 => 1,
+            1 | 2 => 100,
+            3 | 4 => 5000,
+            5 => rng.range(1, 1_000_000),
+            6 => rng.range(1, 50),
+            _ => rand_bits(rng, 40).max(1),
+        };
+        let dt = match rng.below(10) {
+            0 => rng.range(0, 3),
+            1 => 2 * hb - rng.range(0, 2.min(2 * hb)),
+            2 => rng.range(2 * hb, 4 * hb),
+            _ => rng.range(1, (2 * hb - 1).max(1)),
+        };
+        let prev = match rng.below(4) {
+            0 => 0,
+            1 => rng.range(0, 1_000_000),
+            2 => 1_700_000_000_000 + rng.range(0, 1_000_000_000),
+            _ => rng.next() >> rng.range(0, 40),
+        };
+        let ts = match prev.checked_add(dt) {
+            Some(t) => t,
+            None => continue,
+        };
+        quads.push((bf, ts, prev, hb, "random"));
+        if i % 50 == 0 && prev > 0 {
+            quads.push((bf, rng.range(0, prev), prev, hb, "misordered"));
+        }
+    }
+
+    let offset = ctx.next_case();
+    let mut cases: Vec<String> = Vec::with_capacity(quads.len());
+    for (i, &(bf, ts, prev, hb, kind)) in quads.iter().enumerate() {
+        let case = offset + i;
+        let w = real_work(bf, ts, prev, hb);
+        let b = real_burnfee(bf, ts, prev, hb);
+        cases.push(format!("({}, {}, {}, {}, {}, {})", bf, ts, prev, hb, obs(w), obs(b)));
+        let desc = format!(
+            "{{\"part\":\"burnfee\",\"kind\":{},\"burn_fee_previous_block\":{},\"current_ts\":{},\"previous_ts\":{},\"heartbeat\":{},\"work_needed\":{},\"burnfee_for_block\":{}}}",
+            jstr(kind), bf, ts, prev, hb, jstr(&format!("{:?}", w)), jstr(&format!("{:?}", b))
+        );
+        ctx.summary.count("burnfee.kind", kind);
+        ctx.summary.count(
+            "burnfee.bf_bits",
+            &format!("{:02}", ((64 - bf.leading_zeros() as u64) + 7) / 8 * 8),
+        );
+        ctx.summary.count(
+            "burnfee.elapsed",
+            if ts <= prev {
+                "misordered-or-zero"
+            } else if hb < (1 << 63) && ts - prev >= 2 * hb {
+                ">=2hb"
+            } else {
+                "<2hb"
+            },
+        );
+        if ts > prev && hb < (1 << 63) && ts - prev < 2 * hb {
+            ctx.nontrivial(format!("bf/{}/{}/{}", bf, ts - prev, hb));
+        }
+        // --- direct oracle on the implementation
+        // (a) zero from two heartbeats on
+        if hb > 0 && hb < (1 << 63) && ts > prev && ts - prev >= 2 * hb {
+            if w != Ok(0) {
+                ctx.summary.oracle_failure(
+                    case,
+                    &format!("routing work requirement is {:?} (not 0) at elapsed {} >= 2 * heartbeat {}", w, ts - prev, hb),
+                    &desc,
+                );
+            }
+        }
+        // (b) never increases with elapsed time: against a later timestamp
+        if ts >= prev && hb < (1 << 63) {
+            let later = match i % 3 {
+                0 => ts.saturating_add(1),
+                1 => ts.saturating_add(rng.range(0, hb.max(1))),
+                _ => ts.saturating_add(rng.range(0, (3 * hb).max(1))),
+            };
+            oracle_antitone(ctx, case, bf, prev, ts, later, hb, &desc);
+        }
+        // (c) a misordered / equal timestamp must be "impossible": at least the sentinel
+        if ts <= prev && w != Ok(SENTINEL) {
+            ctx.summary.oracle_failure(case, &format!("misordered timestamps give {:?}, not the sentinel", w), &desc);
+        }
+        ctx.summary.case_descs.push(desc);
+    }
+    // the refutation witness of C08_work_antitone_refuted, replayed on the real function
+    {
+        let case = offset; // attached to the first case of the part
+        let (bf, prev, t1, t2, hb) = (u64::MAX, 1000u64, 1000u64, 1001u64, 100u64);
+        oracle_antitone(ctx, case, bf, prev, t1, t2, hb, "{\"part\":\"burnfee\",\"kind\":\"refutation-witness\"}");
+        let w1 = real_work(bf, t1, prev, hb);
+        let w2 = real_work(bf, t2, prev, hb);
+        ctx.summary.samples.push(format!(
+            "{{\"witness\":\"work_antitone_refuted\",\"bf\":{},\"prev\":{},\"t1\":{},\"t2\":{},\"hb\":{},\"work_t1\":{},\"work_t2\":{}}}",
+            bf, prev, t1, t2, hb, jstr(&format!("{:?}", w1)), jstr(&format!("{:?}", w2))
+        ));
+    }
+    // dense sweeps on the implementation only: every elapsed time 0 ..= 2hb+2
+    let n_sweeps = if thorough { 400 } else { 60 };
+    let mut sweep_points = 0u64;
+    for s in 0..n_sweeps {
+        let bf = if s % 3 == 0 { rand_bits(rng, 64) } else { rng.range(1, 10_000_000_000_000) };
+        let hb = *rng.pick(&[1u64, 7, 100, 100, 5000]);
+        let prev = rng.range(0, 2_000_000_000_000);
+        let mut last: Option<u64> = None;
+        for dt in 0..=(2 * hb + 2) {
+            let w = match real_work(bf, prev + dt, prev, hb) {
+                Ok(w) => w,
+                Err(_) => break,
+            };
+            sweep_points += 1;
+            if let Some(l) = last {
+                if w > l {
+                    let what = format!(
+                        "routing work requirement increases with elapsed time: bf={} prev={} hb={}: work(dt={})={} < work(dt={})={}",
+                        bf, prev, hb, dt - 1, l, dt, w
+                    );
+                    if dt == 1 && bf > SENTINEL {
+                        ctx.summary.known_hit("sentinel-below-max-work", offset, &what);
+                    } else {
+                        ctx.summary.oracle_failure(offset, &what, "{\"part\":\"burnfee\",\"kind\":\"sweep\"}");
+                    }
+                }
+            }
+            if dt >= 2 * hb && w != 0 {
+                ctx.summary.oracle_failure(
+                    offset,
+                    &format!("requirement {} at elapsed {} >= 2*hb (bf={}, hb={})", w, dt, bf, hb),
+                    "{\"part\":\"burnfee\",\"kind\":\"sweep\"}",
+                );
+            }
+            last = Some(w);
+        }
+    }
+    ctx.summary.notes.push(format!(
+        "part 1: {} (bf, ts, prev, heartbeat) quadruples compared bit-for-bit with the Flocq model; additionally {} points of dense elapsed-time sweeps (0..=2hb+2) checked for antitonicity / zero on the implementation only",
+        quads.len(),
+        sweep_points
+    ));
+    let header = format!(
+        "From Saito Require Import Base BurnFee.\nDefinition DBG : bool := {}.\nDefinition check (c : N * N * N * N * N * N) : bool :=\n  let '(bf, ts, prev, hb, ew, eb) := c in\n  (obs_res (work_needed_r DBG bf ts prev hb) =? ew) && (burnfee_for_block bf ts prev hb =? eb).",
+        gal::boolean(ctx.dbg)
+    );
+    // keep every shard below ~2 MB (about 110 bytes per case)
+    let shards = ctx.args.shards.max(cases.len() / 14_000 + 1);
+    let dir = format!("{}/cases", ctx.args.out);
+    let files = write_shards_off(&dir, "bf", &header, "N * N * N * N * N * N", &cases, shards, offset);
+    ctx.files.extend(files);
+}
+
+// ------------------------------------------------------------------ part 2: routing paths
+
+#[derive(Clone, Copy, PartialEq, Debug)]
+enum PathKind {
+    None,
+    Valid,
+    Misdirected,
+    Broken,
+    SelfHop,
+    ForgedSig,
+    ForeignStart,
+    Long,
+}
+
+fn mk_slip(pk: &SaitoPublicKey, amount: u64) -> Slip {
+    let mut s = Slip::default();
+    s.public_key = *pk;
+    s.amount = amount;
+    s.slip_type = SlipType::Normal;
+    s
+}
+
+/// a signed transaction of `sender` with the given input / output amounts (inputs are
+/// free-standing slips: nothing in part 2 touches the UTXO set)
+fn raw_tx(keys: &Keys, sender: usize, ins: &[u64], outs: &[u64], ts: u64) -> Transaction {
+    let mut tx = Transaction::default();
+    tx.transaction_type = TransactionType::Normal;
+    tx.timestamp = ts;
+    for (i, a) in ins.iter().enumerate() {
+        let mut s = mk_slip(&keys.v[sender].0, *a);
+        s.block_id = 1;
+        s.tx_ordinal = i as u64;
+        tx.add_from_slip(s);
+    }
+    for a in outs {
+        tx.add_to_slip(mk_slip(&keys.v[(sender + 1) % keys.v.len()].0, *a));
+    }
+    tx.sign(&keys.v[sender].1);
+    tx
+}
+
+/// appends a hop signed by key `signer` claiming `from` -> `to`
+fn push_hop(tx: &mut Transaction, keys: &Keys, signer: usize, from: usize, to: usize) {
+    let hop = Hop::generate(&keys.v[signer].1, &keys.v[from].0, &keys.v[to].0, tx);
+    tx.path.push(hop);
+}
+
+/// builds a path of the requested kind that ends (for the "good" kinds) at `creator`
+fn build_path(tx: &mut Transaction, keys: &Keys, rng: &mut Rng, sender: usize, creator: usize, kind: PathKind, hops: usize) {
+    let n = keys.v.len();
+    if kind == PathKind::None || hops == 0 {
+        return;
+    }
+    // node sequence sender = v0 -> v1 -> ... -> v_hops
+    let mut nodes = vec![sender];
+    for i in 0..hops {
+        let last = *nodes.last().unwrap();
+        let mut next = if i + 1 == hops { creator } else { rng.below(n as u64) as usize };
+        if next == last {
+            next = (next + 1) % n;
+            if i + 1 == hops && kind != PathKind::Misdirected {
+                // sender == creator with a single hop: route through another node first
+                next = creator;
+            }
+        }
+        nodes.push(next);
+    }
+    if kind == PathKind::Misdirected {
+        let l = nodes.len() - 1;
+        nodes[l] = (creator + 1 + rng.below(n as u64 - 1) as usize) % n;
+        if nodes[l] == nodes[l - 1] {
+            nodes[l] = (nodes[l] + 1) % n;
+            if nodes[l] == creator {
+                nodes[l] = (nodes[l] + 1) % n;
+            }
+        }
+    }
+    let victim = rng.below(hops as u64) as usize;
+    for i in 0..hops {
+        let (from, to) = (nodes[i], nodes[i + 1]);
+        if from == to {
+            // only possible for sender == creator single hop; use the real assert-free generator
+            push_hop(tx, keys, from, from, to);
+            continue;
+        }
+        match kind {
+            PathKind::Valid | PathKind::Misdirected | PathKind::Long => {
+                // the real add_hop
+                tx.add_hop(&keys.v[from].1, &keys.v[from].0, &keys.v[to].0);
+            }
+            PathKind::Broken => {
+                if i == victim && i > 0 {
+                    // validly signed hop by a node that is not the previous `to`
+                    let other = (from + 1 + rng.below(n as u64 - 1) as usize) % n;
+                    if other == to {
+                        push_hop(tx, keys, (other + 1) % n, (other + 1) % n, to);
+                    } else {
+                        tx.add_hop(&keys.v[other].1, &keys.v[other].0, &keys.v[to].0);
+                    }
+                } else {
+                    tx.add_hop(&keys.v[from].1, &keys.v[from].0, &keys.v[to].0);
+                }
+            }
+            PathKind::SelfHop => {
+                if i == victim {
+                    // from -> from (validly signed), then continue from -> to
+                    push_hop(tx, keys, from, from, from);
+                }
+                tx.add_hop(&keys.v[from].1, &keys.v[from].0, &keys.v[to].0);
+            }
+            PathKind::ForgedSig => {
+                if i == victim {
+                    match rng.below(3) {
+                        0 => {
+                            // signed by somebody else
+                            let other = (from + 1) % n;
+                            push_hop(tx, keys, other, from, to);
+                        }
+                        1 => {
+                            // signature for a different `to`
+                            let other_to = (to + 1) % n;
+                            let mut hop = Hop::generate(&keys.v[from].1, &keys.v[from].0, &keys.v[other_to].0, tx);
+                            hop.to = keys.v[to].0;
+                            tx.path.push(hop);
+                        }
+                        _ => {
+                            // garbage signature
+                            let mut hop = Hop::default();
+                            hop.from = keys.v[from].0;
+                            hop.to = keys.v[to].0;
+                            let r = hash(&rng.next().to_be_bytes());
+                            hop.sig[0..32].copy_from_slice(&r);
+                            hop.sig[32..64].copy_from_slice(&hash(&r));
+                            tx.path.push(hop);
+                        }
+                    }
+                } else {
+                    tx.add_hop(&keys.v[from].1, &keys.v[from].0, &keys.v[to].0);
+                }
+            }
+            PathKind::ForeignStart => {
+                if i == 0 {
+                    // first hop does not start at the sender
+                    let other = (from + 1 + rng.below(n as u64 - 1) as usize) % n;
+                    if other == to {
+                        tx.add_hop(&keys.v[from].1, &keys.v[from].0, &keys.v[to].0);
+                    } else {
+                        tx.add_hop(&keys.v[other].1, &keys.v[other].0, &keys.v[to].0);
+                    }
+                } else {
+                    tx.add_hop(&keys.v[from].1, &keys.v[from].0, &keys.v[to].0);
+                }
+            }
+            PathKind::None => {}
+        }
+    }
+}
+
+fn real_winner(tx: &Transaction, h: SaitoHash, keys: &Keys) -> Result<u64, u64> {
+    catch_unwind(AssertUnwindSafe(|| tx.get_winning_routing_node(h)))
+        .map(|pk| keys.id(&pk))
+        .map_err(|e| panic_site(&panic_msg(e)))
+}
+
+/// direct oracle for one transaction: work bounds and eligibility of every lottery outcome
+fn oracle_tx(
+    ctx: &mut Ctx,
+    case: usize,
+    tx: &Transaction,
+    creator: &SaitoPublicKey,
+    fees: u64,
+    winners: &[(SaitoHash, Result<u64, u64>)],
+    keys: &Keys,
+    desc: &str,
+) {
+    let w = tx.total_work_for_me;
+    if tx.total_fees != fees {
+        ctx.summary.oracle_failure(case, &format!("total_fees {} differs from inputs - outputs = {}", tx.total_fees, fees), desc);
+    }
+    if w > tx.total_fees {
+        ctx.summary.oracle_failure(case, &format!("routing work {} exceeds the fee {}", w, tx.total_fees), desc);
+    }
+    let ends_at_creator = tx.path.last().map(|h| &h.to == creator).unwrap_or(false);
+    let good = !tx.path.is_empty() && ends_at_creator && contiguous(tx);
+    if w > 0 && !good {
+        ctx.summary.oracle_failure(
+            case,
+            &format!("routing work {} counted for a path that is empty / broken / not ending at the creator", w),
+            desc,
+        );
+    }
+    if good {
+        let expect = halve_n(fees, tx.path.len() - 1);
+        if w != expect {
+            ctx.summary.oracle_failure(
+                case,
+                &format!("routing work {} but fee {} halved once per hop after the first ({} hops) is {}", w, fees, tx.path.len(), expect),
+                desc,
+            );
+        }
+    }
+    // eligibility of winners
+    let mut eligible: BTreeSet<u64> = BTreeSet::new();
+    eligible.insert(0);
+    if tx.path.is_empty() {
+        if let Some(s) = tx.from.first() {
+            eligible.insert(keys.id(&s.public_key));
+        }
+    }
+    for h in &tx.path {
+        eligible.insert(keys.id(&h.to));
+    }
+    for (h, r) in winners {
+        match r {
+            Ok(k) => {
+                if !eligible.contains(k) {
+                    ctx.summary.oracle_failure(
+                        case,
+                        &format!("lottery winner key#{} for hash {} is neither a hop target nor the sender of a path-less tx", k, hex::encode(h)),
+                        desc,
+                    );
+                }
+            }
+            Err(site) => {
+                // only the documented arithmetic panics (2*fees >= 2^64) are tolerated
+                if (fees as u128) * 2 < TWO64 || *site == 813 || *site == 814 || *site == 899 {
+                    ctx.summary.oracle_failure(case, &format!("get_winning_routing_node panicked (site {})", site), desc);
+                }
+            }
+        }
+    }
+}
+
+fn part2(ctx: &mut Ctx, rng: &mut Rng) {
+    let thorough = ctx.args.tier == "thorough";
+    let keys = Keys::new(6);
+    let n = if thorough { 24_000 } else { 3_000 };
+    let offset = ctx.next_case();
+    let mut cases: Vec<String> = vec![];
+    let kinds = [
+        PathKind::None,
+        PathKind::Valid,
+        PathKind::Valid,
+        PathKind::Valid,
+        PathKind::Misdirected,
+        PathKind::Broken,
+        PathKind::SelfHop,
+        PathKind::ForgedSig,
+        PathKind::ForeignStart,
+    ];
+    for i in 0..n {
+        let case = offset + i;
+        let sender = rng.below(6) as usize;
+        let creator = rng.below(6) as usize;
+        let mut kind = *rng.pick(&kinds);
+        let mut hops = if kind == PathKind::None { 0 } else { rng.range(1, 5) as usize };
+        // amounts
+        let (ins, outs): (Vec<u64>, Vec<u64>) = match rng.below(12) {
+            0 => (vec![1000], vec![1000]),                         // zero fee
+            1 => (vec![1000], vec![2000]),                         // outputs exceed inputs: fee 0
+            2 => (vec![rng.range(1, 9)], vec![0]),                 // tiny fees (all lottery outcomes)
+            3 => (vec![rng.range(1, 40), rng.range(1, 40)], vec![rng.range(0, 1)]),
+            4 => (vec![u64::MAX], vec![0]),                        // aggregate overflows from 2 hops on
+            5 => (vec![(1 << 63) + 1], vec![0]),                   // wraps to 0 after 64 hops
+            6 => (vec![1 << 63], vec![0]),
+            7 => (vec![], vec![]),                                 // no inputs at all
+            _ => {
+                let a = rng.range(1, 1_000_000_000_000);
+                (vec![a], vec![rng.range(0, a)])
+            }
+        };
+        if ins == vec![(1u64 << 63) + 1] && i % 3 == 0 {
+            kind = PathKind::Long;
+            hops = 64 + rng.below(3) as usize;
+        }
+        let mut tx = if ins.is_empty() {
+            let mut t = Transaction::default();
+            t.timestamp = 1;
+            t.sign(&keys.v[sender].1);
+            t
+        } else {
+            raw_tx(&keys, sender, &ins, &outs, 1000 + i as u64)
+        };
+        build_path(&mut tx, &keys, rng, sender, creator, kind, hops);
+        let fees = fees_of(&tx);
+        let creator_pk = keys.v[creator].0;
+        let gen = catch_unwind(AssertUnwindSafe(|| {
+            let mut t = tx.clone();
+            t.generate(&creator_pk, 0, 0);
+            t
+        }));
+        let tx = match gen {
+            Ok(t) => t,
+            Err(e) => {
+                let desc = format!("{{\"part\":\"routing\",\"kind\":{}}}", jstr(&format!("{:?}", kind)));
+                ctx.summary.oracle_failure(case, &format!("Transaction::generate panicked: {}", panic_msg(e)), &desc);
+                ctx.summary.case_descs.push(desc);
+                cases.push("((0, None, 0, [], []), (1, true, []))".to_string());
+                continue;
+            }
+        };
+        let vrp = catch_unwind(AssertUnwindSafe(|| tx.validate_routing_path())).unwrap_or(false);
+        // lottery numbers: random hashes and crafted small numbers around the fee boundaries
+        let mut hashes: Vec<SaitoHash> = vec![];
+        for _ in 0..3 {
+            hashes.push(hash(&rng.next().to_be_bytes()));
+        }
+        let f = fees as u128;
+        for x in [0u128, 1, f.saturating_sub(1), f, f + 1, f + f / 2, f + f / 2 + 1, f + f / 2 + f / 4] {
+            if rng.chance(1, 2) {
+                hashes.push(be32(x));
+            }
+        }
+        if fees > 0 && fees < 12 {
+            // small fee vectors: every outcome of the lottery
+            for x in 0..(2 * f + 2) {
+                hashes.push(be32(x));
+            }
+        }
+        hashes.push([0xff; 32]);
+        let winners: Vec<(SaitoHash, Result<u64, u64>)> =
+            hashes.iter().map(|h| (*h, real_winner(&tx, *h, &keys))).collect();
+
+        let path_json: Vec<String> = tx
+            .path
+            .iter()
+            .map(|h| format!("[{},{},{}]", keys.id(&h.from), keys.id(&h.to), hop_sig_ok(&tx, h)))
+            .collect();
+        let desc = format!(
+            "{{\"part\":\"routing\",\"kind\":{},\"creator_key\":{},\"sender_key\":{},\"inputs\":{:?},\"outputs\":{:?},\"path_from_to_sigok\":[{}],\"total_work_for_me\":{},\"validate_routing_path\":{},\"winners\":{}}}",
+            jstr(&format!("{:?}", kind)),
+            creator + 1,
+            sender + 1,
+            ins,
+            outs,
+            path_json.join(","),
+            tx.total_work_for_me,
+            vrp,
+            jstr(&format!("{:?}", winners.iter().map(|(_, r)| *r).collect::<Vec<_>>()))
+        );
+        oracle_tx(ctx, case, &tx, &creator_pk, fees, &winners, &keys, &desc);
+        // validate_routing_path: direct check against its definition on the real fields
+        let expect_vrp = tx.path.iter().all(|h| hop_sig_ok(&tx, h) && h.from != h.to) && contiguous(&tx);
+        if vrp != expect_vrp {
+            ctx.summary.oracle_failure(
+                case,
+                &format!("validate_routing_path = {} but signatures/self-hops/contiguity say {}", vrp, expect_vrp),
+                &desc,
+            );
+        }
+        ctx.summary.count("routing.kind", &format!("{:?}", kind));
+        ctx.summary.count("routing.hops", &format!("{:02}", tx.path.len().min(64)));
+        ctx.summary.count("routing.work", if tx.total_work_for_me > 0 { "positive" } else { "zero" });
+        ctx.summary.count("routing.valid_path", if vrp { "valid" } else { "invalid" });
+        if !tx.path.is_empty() {
+            ctx.nontrivial(format!("rt/{}", desc));
+        }
+        let xs: Vec<String> = hashes.iter().map(u256_dec).collect();
+        let ws: Vec<String> = winners.iter().map(|(_, r)| obs(*r)).collect();
+        cases.push(format!(
+            "(({}, {}, {}), ({}, {}, {}))",
+            creator + 1,
+            abs_tx(&tx, fees, &keys),
+            gal::list(&xs),
+            tx.total_work_for_me,
+            gal::boolean(vrp),
+            gal::list(&ws)
+        ));
+        if i < 3 {
+            ctx.summary.samples.push(desc.clone());
+        }
+        ctx.summary.case_descs.push(desc);
+    }
+    let header = format!(
+        "From Saito Require Import Base BurnFee Routing.\nDefinition DBG : bool := {}.\nDefinition mk_tx (t : option N * N * list (N * N * bool)) : rtx :=\n  let '(f0, fees, p) := t in mkRtx f0 fees (map (fun h => mkHop (fst (fst h)) (snd (fst h)) (snd h)) p).\nDefinition check (c : (N * (option N * N * list (N * N * bool)) * list N) * (N * bool * list N)) : bool :=\n  let '((creator, t, xs), (w, v, wins)) := c in\n  let tx := mk_tx t in\n  (total_work creator tx =? w) && Bool.eqb (validate_routing_path tx) v\n  && eqb_lN (map (fun x => obs_res (winning_routing_node DBG tx x)) xs) wins.",
+        gal::boolean(ctx.dbg)
+    );
+    let dir = format!("{}/cases", ctx.args.out);
+    let shards = ctx.args.shards.max(cases.len() / 1500 + 1);
+    let files = write_shards_off(
+        &dir,
+        "rt",
+        &header,
+        "(N * (option N * N * list (N * N * bool)) * list N) * (N * bool * list N)",
+        &cases,
+        shards,
+        offset,
+    );
+    ctx.files.extend(files);
+}
+
+// ------------------------------------------------------------------ part 3: real chains
+
+/// like world::make_block, but the golden ticket may be solved by another key
+async fn make_block_gt(
+    node: &Node,
+    parent_hash: SaitoHash,
+    timestamp: u64,
+    txs: Vec<Transaction>,
+    gt: Option<(&SaitoPublicKey, &SaitoPrivateKey, u64)>,
+) -> Result<Block, String> {
+    let mut map = fixed_tx_map();
+    for mut tx in txs {
+        tx.generate(&node.pk, 0, 0);
+        map.insert(tx.signature, tx);
+    }
+    let mut gt_opt = None;
+    if let Some((pk, sk, seed)) = gt {
+        let parent = node.blockchain.get_block(&parent_hash).ok_or_else(|| "parent not found".to_string())?;
+        let mut gttx = golden_ticket_tx(parent_hash, parent.difficulty, pk, sk, seed).await;
+        gttx.generate(&node.pk, 0, 0);
+        gt_opt = Some(gttx);
+    }
+    let mut block = Block::create(&mut map, parent_hash, &node.blockchain, timestamp, &node.pk, &node.sk, gt_opt, &node.cfg, &node.storage)
+        .await
+        .map_err(|e| format!("Block::create failed: {:?}", e))?;
+    block.generate().map_err(|e| format!("generate failed: {:?}", e))?;
+    block.sign(&node.sk);
+    block.generate().map_err(|e| format!("generate failed: {:?}", e))?;
+    Ok(block)
+}
+
+/// a spendable-slip pool of one key (outputs of the genesis issuance)
+struct Purse {
+    slips: Vec<Slip>,
+    next: usize,
+}
+impl Purse {
+    fn take(&mut self) -> Slip {
+        let s = self.slips[self.next].clone();
+        self.next += 1;
+        s
+    }
+}
+
+/// routed transaction paying `fee`, path sender(A) -> routers… -> target, `hops` hops
+fn routed_tx(
+    keys: &Keys,
+    purse: &mut Purse,
+    sender: usize,
+    fee: u64,
+    route: &[usize],
+    ts: u64,
+) -> Transaction {
+    let s = purse.take();
+    let mut tx = make_tx(&[s.clone()], &[(keys.v[sender].0, s.amount - fee)], &keys.v[sender].1, ts);
+    let mut from = sender;
+    for &to in route {
+        tx.add_hop(&keys.v[from].1, &keys.v[from].0, &keys.v[to].0);
+        from = to;
+    }
+    tx
+}
+
+fn abs_block_txs(b: &Block, keys: &Keys) -> (Vec<String>, bool) {
+    // (cumulative_fees, (from0, fees, path)) per transaction; flag = ATR present
+    let mut has_atr = false;
+    let v = b
+        .transactions
+        .iter()
+        .map(|t| {
+            if t.transaction_type == TransactionType::ATR {
+                has_atr = true;
+            }
+            format!("({}, {})", t.cumulative_fees, abs_tx(t, t.total_fees, keys))
+        })
+        .collect();
+    (v, has_atr)
+}
+
+fn eligible_of(b: &Block, keys: &Keys, set: &mut BTreeSet<u64>) {
+    for t in &b.transactions {
+        if t.path.is_empty() {
+            if let Some(s) = t.from.first() {
+                set.insert(keys.id(&s.public_key));
+            }
+        }
+        for h in &t.path {
+            set.insert(keys.id(&h.to));
+        }
+    }
+}
+
+/// fees collected by a block, recomputed from its transactions' slips
+fn collected_fees(b: &Block) -> u64 {
+    b.transactions
+        .iter()
+        .filter(|t| matches!(t.transaction_type, TransactionType::Normal | TransactionType::GoldenTicket))
+        .map(fees_of)
+        .sum()
+}
+
+struct Scenario {
+    hb: u64,
+    dt: u64,            // candidate timestamp offset from its parent (may be 0)
+    misordered: bool,   // candidate timestamp before the parent's
+    hops: usize,        // hops of the work-carrying transactions
+    n_tx: usize,        // number of work-carrying transactions
+    variant: i64,       // work - needed: -1 short, 0 exact, +k over
+    path_defect: u8,    // 0 none, 1 forged hop signature, 2 self-hop, 3 misdirected, 4 broken
+    with_gt: bool,
+}
+
+async fn run_gate_scenario(ctx: &mut Ctx, rng: &mut Rng, sc: &Scenario, keys: &Keys, cases: &mut Vec<String>, case: usize) {
+    let params = Params { genesis_period: 100, heartbeat: sc.hb, ..Params::default() };
+    let mut node = Node::new(&params, 1);
+    let creator = 0usize; // keys.v[0] == node key (keypair(1))
+    let sender = 1usize;
+    let iss: Vec<(SaitoPublicKey, u64)> = (0..12).map(|_| (keys.v[sender].0, 400_000_000_000u64)).collect();
+    let g = make_genesis(&node, 1_000_000, &iss).await.unwrap();
+    let r0 = node.add_block(g.clone()).await;
+    let mut purse = Purse { slips: (0..12).map(|i| outputs_of(&g, i)[0].clone()).collect(), next: 0 };
+    // block 2: far after genesis (no work needed), fee sets nothing for the gate; burnfee becomes 50_000_000
+    let ts2 = 1_000_000 + 2 * sc.hb + 17;
+    let tx2 = routed_tx(keys, &mut purse, sender, 1000, &[creator], ts2);
+    let b2 = make_block(&node, g.hash, ts2, vec![tx2], false, 0).await.unwrap();
+    let r2 = node.add_block(b2.clone()).await;
+    if r0 != AddClass::OnChain || r2 != AddClass::OnChain {
+        ctx.summary.notes.push(format!("gate scenario setup failed: genesis {:?} block2 {:?}", r0, r2));
+        cases.push("((0, [], 0, 0, 0, 1), (0, false, false))".to_string());
+        ctx.summary.case_descs.push("{\"part\":\"gate\",\"setup\":\"failed\"}".to_string());
+        return;
+    }
+    let ts3 = if sc.misordered { ts2 - 1 - rng.below(100) } else { ts2 + sc.dt };
+    let needed = BurnFee::return_routing_work_needed_to_produce_block_in_nolan(b2.burnfee, ts3, ts2, sc.hb);
+    // target total work
+    let target: u64 = if needed == SENTINEL {
+        // cannot be met with real money: offer a sizeable amount of work anyway
+        1_000_000_000
+    } else {
+        (needed as i128 + sc.variant as i128).max(0) as u64
+    };
+    // split the target over n_tx transactions; per-tx work w_i needs fee f_i with halve^(hops-1)(f_i) = w_i
+    let n_tx = sc.n_tx.max(1);
+    let mut works = vec![target / n_tx as u64; n_tx];
+    works[0] += target % n_tx as u64;
+    let mut txs = vec![];
+    for (j, w) in works.iter().enumerate() {
+        let mul = 1u64 << (sc.hops - 1);
+        let fee = w * mul; // ceil-halving of w * 2^(k) k times gives exactly w
+        // route: sender -> r1 -> ... -> creator
+        let mut route: Vec<usize> = (0..sc.hops - 1).map(|k| 2 + ((j + k) % 3)).collect();
+        route.push(creator);
+        let mut tx = {
+            let s = purse.take();
+            make_tx(&[s.clone()], &[(keys.v[sender].0, s.amount - fee)], &keys.v[sender].1, ts3)
+        };
+        let defect_here = sc.path_defect != 0 && j == 0;
+        let mut from = sender;
+        for (k, &to) in route.iter().enumerate() {
+            let last = k + 1 == route.len();
+            if defect_here && last && sc.path_defect == 1 {
+                // forged: the last hop to the creator is "signed" by the creator, not by `from`
+                let hop = Hop::generate(&keys.v[creator].1, &keys.v[from].0, &keys.v[to].0, &tx);
+                tx.path.push(hop);
+            } else if defect_here && last && sc.path_defect == 2 {
+                // self-hop inserted before the last hop
+                let hop = Hop::generate(&keys.v[from].1, &keys.v[from].0, &keys.v[from].0, &tx);
+                tx.path.push(hop);
+                tx.add_hop(&keys.v[from].1, &keys.v[from].0, &keys.v[to].0);
+            } else if defect_here && last && sc.path_defect == 3 {
+                // misdirected: ends at a router, not at the creator
+                let other = 5usize;
+                tx.add_hop(&keys.v[from].1, &keys.v[from].0, &keys.v[other].0);
+            } else if defect_here && last && sc.path_defect == 4 && route.len() > 1 {
+                // broken: last hop starts at a node that is not the previous `to`
+                let other = 5usize;
+                tx.add_hop(&keys.v[other].1, &keys.v[other].0, &keys.v[to].0);
+            } else {
+                tx.add_hop(&keys.v[from].1, &keys.v[from].0, &keys.v[to].0);
+            }
+            from = to;
+        }
+        txs.push(tx);
+    }
+    let gt = if sc.with_gt { Some((&keys.v[4].0, &keys.v[4].1, case as u64)) } else { None };
+    let b3 = match make_block_gt(&node, b2.hash, ts3, txs, gt).await {
+        Ok(b) => b,
+        Err(e) => {
+            ctx.summary.notes.push(format!("gate scenario: candidate not built: {}", e));
+            cases.push("((0, [], 0, 0, 0, 1), (0, false, false))".to_string());
+            ctx.summary.case_descs.push("{\"part\":\"gate\",\"setup\":\"candidate-failed\"}".to_string());
+            return;
+        }
+    };
+    let total_work = b3.total_work;
+    let class = {
+        let fut = node.add_block(b3.clone());
+        fut.await
+    };
+    let accepted = class == AddClass::OnChain;
+    let invalid_paths: Vec<bool> = b3.transactions.iter().map(|t| !t.validate_routing_path()).collect();
+    let work_from_invalid: u64 = b3
+        .transactions
+        .iter()
+        .zip(invalid_paths.iter())
+        .filter(|(_, inv)| **inv)
+        .map(|(t, _)| t.total_work_for_me)
+        .sum();
+    let desc = format!(
+        "{{\"part\":\"gate\",\"heartbeat\":{},\"parent_burnfee\":{},\"parent_ts\":{},\"candidate_ts\":{},\"work_needed\":{},\"total_work\":{},\"hops\":{},\"work_txs\":{},\"variant\":{},\"path_defect\":{},\"golden_ticket\":{},\"add_block\":{},\"work_from_invalid_paths\":{}}}",
+        sc.hb, b2.burnfee, ts2, ts3, needed, total_work, sc.hops, n_tx, sc.variant, sc.path_defect, sc.with_gt,
+        jstr(&format!("{:?}", class)), work_from_invalid
+    );
+    // ---- direct oracle
+    if accepted && total_work < needed {
+        ctx.summary.oracle_failure(
+            case,
+            &format!("block accepted with routing work {} below the requirement {} (burnfee {}, elapsed {}, heartbeat {})", total_work, needed, b2.burnfee, ts3 as i128 - ts2 as i128, sc.hb),
+            &desc,
+        );
+    }
+    if accepted && total_work.saturating_sub(work_from_invalid) < needed {
+        // the requirement is met only thanks to paths that are not cryptographically valid / are self-hops
+        ctx.summary.known_hit(
+            "invalid-path-work-accepted",
+            case,
+            &format!(
+                "block accepted although only {} of its routing work {} comes through valid paths (requirement {}): a transaction whose validate_routing_path() is false still counts (Block::validate discards the per-transaction verdict)",
+                total_work - work_from_invalid, total_work, needed
+            ),
+        );
+    }
+    if !accepted && sc.path_defect == 0 && total_work >= needed && class != AddClass::Panicked {
+        ctx.summary.oracle_failure(
+            case,
+            &format!("otherwise valid block with routing work {} >= requirement {} was not accepted ({:?})", total_work, needed, class),
+            &desc,
+        );
+    }
+    ctx.summary.count("gate.variant", &format!("{:+}", sc.variant.signum()));
+    ctx.summary.count("gate.result", &format!("{:?}", class));
+    ctx.summary.count("gate.defect", &format!("{}", sc.path_defect));
+    ctx.summary.count("gate.hops", &format!("{}", sc.hops));
+    ctx.nontrivial(format!("gate/{}", desc));
+    // ---- model case: block total work from the abstract transactions, gate verdict
+    let atxs: Vec<String> = b3.transactions.iter().map(|t| abs_tx(t, t.total_fees, keys)).collect();
+    let strict = sc.path_defect == 0 || sc.path_defect >= 3;
+    cases.push(format!(
+        "(({}, {}, {}, {}, {}, {}), ({}, {}, {}))",
+        keys.id(&b3.creator),
+        gal::list(&atxs),
+        b2.burnfee,
+        ts3,
+        ts2,
+        sc.hb,
+        total_work,
+        gal::boolean(accepted),
+        gal::boolean(strict)
+    ));
+    if case % 40 == 0 {
+        ctx.summary.samples.push(desc.clone());
+    }
+    ctx.summary.case_descs.push(desc);
+}
+
+/// chains g, b2, b3, b4(gt) [, b5(gt)] with fees and varied paths; checks every fee transaction
+async fn run_payout_scenario(ctx: &mut Ctx, rng: &mut Rng, keys: &Keys, cases: &mut Vec<String>, first_case: usize) -> usize {
+    let hb = 100u64;
+    let gp = *rng.pick(&[10u64, 10, 20, 100]);
+    let params = Params { genesis_period: gp, heartbeat: hb, ..Params::default() };
+    let mut node = Node::new(&params, 1);
+    let creator = 0usize;
+    let n_iss = 40;
+    let mut iss: Vec<(SaitoPublicKey, u64)> = vec![];
+    for i in 0..n_iss {
+        iss.push((keys.v[1 + i % 2].0, 50_000_000_000u64));
+    }
+    let g = make_genesis(&node, 5_000_000, &iss).await.unwrap();
+    if node.add_block(g.clone()).await != AddClass::OnChain {
+        return 0;
+    }
+    let mut purses: Vec<Purse> = vec![
+        Purse { slips: (0..n_iss).filter(|i| i % 2 == 0).map(|i| outputs_of(&g, i)[0].clone()).collect(), next: 0 },
+        Purse { slips: (0..n_iss).filter(|i| i % 2 == 1).map(|i| outputs_of(&g, i)[0].clone()).collect(), next: 0 },
+    ];
+    let mut chain: Vec<Block> = vec![g.clone()];
+    let n_blocks = rng.range(3, 6) as usize;
+    let mut produced = 0usize;
+    let big = rng.range(100_000, 5_000_000);
+    for bi in 0..n_blocks {
+        let parent = chain.last().unwrap().clone();
+        let ts = parent.timestamp + 2 * hb + rng.range(0, 50);
+        // transactions of this block: 0..4 with varied fees and paths
+        let mut txs = vec![];
+        let ntx = if bi == 0 { rng.range(1, 3) } else { rng.range(0, 4) } as usize;
+        for _ in 0..ntx {
+            let who = rng.below(2) as usize; // purse / sender key index 1 or 2
+            if purses[who].next + 1 >= purses[who].slips.len() {
+                continue;
+            }
+            let sender = 1 + who;
+            let fee = match rng.below(5) {
+                0 => 0,
+                1 => rng.range(1, 20),
+                2 => big,
+                _ => rng.range(big / 10, big),
+            };
+            let hops = rng.below(4) as usize;
+            let mut route: Vec<usize> = vec![];
+            let mut last = sender;
+            for k in 0..hops {
+                let mut nx = if k + 1 == hops && rng.chance(3, 4) { creator } else { rng.range(2, 5) as usize };
+                if nx == last {
+                    nx = if nx == 5 { 3 } else { nx + 1 };
+                }
+                route.push(nx);
+                last = nx;
+            }
+            txs.push(routed_tx(keys, &mut purses[who], sender, fee, &route, ts));
+        }
+        let with_gt = bi >= 1 && rng.chance(2, 3) || bi + 1 == n_blocks;
+        if txs.is_empty() && !with_gt {
+            let who = 0;
+            txs.push(routed_tx(keys, &mut purses[who], 1, 5, &[creator], ts));
+        }
+        let miner = *rng.pick(&[0usize, 4, 5]);
+        let gt = if with_gt { Some((&keys.v[miner].0, &keys.v[miner].1, first_case as u64 * 16 + bi as u64)) } else { None };
+        let b = match make_block_gt(&node, parent.hash, ts, txs, gt).await {
+            Ok(b) => b,
+            Err(e) => {
+                ctx.summary.notes.push(format!("payout scenario: block not built: {}", e));
+                break;
+            }
+        };
+        let class = node.add_block(b.clone()).await;
+        if class != AddClass::OnChain {
+            ctx.summary.oracle_failure(
+                first_case + produced,
+                &format!("payout scenario: block {} built by the node's own Block::create was not accepted: {:?}", b.id, class),
+                "{\"part\":\"payout\"}",
+            );
+            break;
+        }
+        chain.push(b.clone());
+        if !b.has_golden_ticket {
+            continue;
+        }
+        // ---------------- an accepted block with a golden ticket: inspect its fee transaction
+        let case = first_case + produced;
+        let gt_tx = b.transactions.iter().find(|t| t.transaction_type == TransactionType::GoldenTicket).unwrap();
+        let gticket = GoldenTicket::deserialize_from_net(&gt_tx.data);
+        let fee_txs: Vec<&Transaction> = b.transactions.iter().filter(|t| t.transaction_type == TransactionType::Fee).collect();
+        let outputs: Vec<(u64, u64, u64)> = fee_txs
+            .iter()
+            .flat_map(|t| t.to.iter())
+            .map(|s| {
+                (
+                    keys.id(&s.public_key),
+                    s.amount,
+                    match s.slip_type {
+                        SlipType::MinerOutput => 1,
+                        SlipType::RouterOutput => 2,
+                        _ => 9,
+                    },
+                )
+            })
+            .collect();
+        let prev = &chain[chain.len() - 2];
+        let pp = if chain.len() >= 3 { Some(&chain[chain.len() - 3]) } else { None };
+        // lottery numbers exactly as generate_consensus_values derives them
+        let r1 = hash(gticket.random.as_ref());
+        let r1b = hash(r1.as_ref());
+        let r2 = hash(hash(r1.as_ref()).as_ref());
+        let r2b = hash(r2.as_ref());
+        // ---- direct oracle: payees and bound
+        let mut eligible: BTreeSet<u64> = BTreeSet::new();
+        eligible.insert(keys.id(&gticket.public_key));
+        eligible_of(prev, keys, &mut eligible);
+        let mut bound: u128 = collected_fees(prev) as u128;
+        let paid_blocks = if !prev.has_golden_ticket && pp.is_some() {
+            let ppb = pp.unwrap();
+            eligible_of(ppb, keys, &mut eligible);
+            let f = collected_fees(ppb) as u128;
+            bound += f - f / 2;
+            2
+        } else {
+            1
+        };
+        let total_out: u128 = outputs.iter().map(|o| o.1 as u128).sum();
+        let desc = format!(
+            "{{\"part\":\"payout\",\"block_id\":{},\"genesis_period\":{},\"gt_solver_key\":{},\"prev_total_fees\":{},\"prev_avg_total_fees\":{},\"prev_has_gt\":{},\"prevprev_total_fees\":{},\"paid_blocks\":{},\"fee_tx_outputs_key_amount_kind\":{:?},\"eligible_keys\":{:?},\"bound\":{}}}",
+            b.id, gp, keys.id(&gticket.public_key), prev.total_fees, prev.avg_total_fees, prev.has_golden_ticket,
+            pp.map(|x| x.total_fees).unwrap_or(0), paid_blocks, outputs, eligible, bound
+        );
+        if fee_txs.len() != 1 {
+            ctx.summary.oracle_failure(case, &format!("accepted block with golden ticket has {} fee transactions", fee_txs.len()), &desc);
+        }
+        if collected_fees(prev) != prev.total_fees {
+            ctx.summary.oracle_failure(
+                case,
+                &format!("header total_fees {} of the paid block differs from the fees its transactions carry {}", prev.total_fees, collected_fees(prev)),
+                &desc,
+            );
+        }
+        for o in &outputs {
+            if !eligible.contains(&o.0) || o.0 == 0 {
+                ctx.summary.oracle_failure(
+                    case,
+                    &format!("fee transaction pays {} to key#{} which is neither the golden-ticket solver nor on a routing path (or path-less sender) of the paid block(s)", o.1, o.0),
+                    &desc,
+                );
+            }
+            if o.2 == 1 && o.0 != keys.id(&gticket.public_key) {
+                ctx.summary.oracle_failure(case, &format!("miner output goes to key#{} not the golden-ticket solver", o.0), &desc);
+            }
+        }
+        if total_out > bound {
+            ctx.summary.oracle_failure(
+                case,
+                &format!("fee transaction pays {} which exceeds the fees collected by the paid block(s) ({})", total_out, bound),
+                &desc,
+            );
+        }
+        ctx.summary.count("payout.paid_blocks", &format!("{}", paid_blocks));
+        ctx.summary.count("payout.outputs", &format!("{}", outputs.len()));
+        ctx.summary.count("payout.capped", if (prev.total_fees / 2) as f64 > prev.avg_total_fees as f64 * 1.5 { "capped" } else { "uncapped" });
+        ctx.nontrivial(format!("pay/{}", desc));
+        // ---- model case
+        let (ptxs, atr1) = abs_block_txs(prev, keys);
+        let pp_str = match pp {
+            Some(ppb) if !prev.has_golden_ticket => {
+                let (pptxs, _) = abs_block_txs(ppb, keys);
+                format!("Some ({}, {}, {}, {})", ppb.total_fees, gal::list(&pptxs), u256_dec(&r2), u256_dec(&r2b))
+            }
+            _ => "None".to_string(),
+        };
+        let atr2 = pp.map(|p| abs_block_txs(p, keys).1).unwrap_or(false);
+        if atr1 || atr2 {
+            ctx.summary.notes.push("payout scenario hit an ATR transaction; model case skipped".to_string());
+            cases.push("((0, None), [])".to_string());
+        } else {
+            let outs: Vec<String> = outputs.iter().map(|o| format!("({}, {}, {})", o.0, o.1, o.2)).collect();
+            cases.push(format!(
+                "(({}, Some (({}, {}, {}), {}, {}, {}, {})), {})",
+                keys.id(&gticket.public_key),
+                prev.total_fees,
+                prev.avg_total_fees,
+                gal::boolean(prev.has_golden_ticket),
+                gal::list(&ptxs),
+                u256_dec(&r1),
+                u256_dec(&r1b),
+                pp_str,
+                gal::list(&outs)
+            ));
+        }
+        if produced == 0 && first_case % 7 == 0 {
+            ctx.summary.samples.push(desc.clone());
+        }
+        ctx.summary.case_descs.push(desc);
+        produced += 1;
+    }
+    produced
+}
+
+async fn part3(ctx: &mut Ctx, rng: &mut Rng) {
+    let thorough = ctx.args.tier == "thorough";
+    let keys = Keys::new(6);
+    // ---------------- gate
+    let offset = ctx.next_case();
+    let mut cases: Vec<String> = vec![];
+    let mut scenarios: Vec<Scenario> = vec![];
+    for &hb in &[100u64, 5000] {
+        for &dt in &[1u64, 2, hb / 2, hb - 1, hb, hb + 1, 2 * hb - 1, 2 * hb, 2 * hb + 1] {
+            for &variant in &[-1i64, 0, 1] {
+                for &hops in &[1usize, 2, 3] {
+                    if hb == 5000 && hops == 3 && !thorough {
+                        continue;
+                    }
+                    scenarios.push(Scenario { hb, dt, misordered: false, hops, n_tx: 1, variant, path_defect: 0, with_gt: false });
+                }
+            }
+        }
+    }
+    // equal / misordered timestamps: the sentinel
+    scenarios.push(Scenario { hb: 100, dt: 0, misordered: false, hops: 1, n_tx: 1, variant: 0, path_defect: 0, with_gt: false });
+    scenarios.push(Scenario { hb: 100, dt: 0, misordered: true, hops: 1, n_tx: 1, variant: 0, path_defect: 0, with_gt: false });
+    // path defects: forged / self-hop count as work on this tree; misdirected / broken do not
+    for &defect in &[1u8, 2, 3, 4] {
+        for &dt in &[10u64, 100, 150] {
+            for &hops in &[1usize, 2] {
+                scenarios.push(Scenario { hb: 100, dt, misordered: false, hops, n_tx: 1, variant: 0, path_defect: defect, with_gt: false });
+                scenarios.push(Scenario { hb: 100, dt, misordered: false, hops, n_tx: 2, variant: 5, path_defect: defect, with_gt: false });
+            }
+        }
+    }
+    let n_rand = if thorough { 600 } else { 80 };
+    for _ in 0..n_rand {
+        let hb = *rng.pick(&[100u64, 100, 1000, 5000]);
+        let dt = rng.range(1, 2 * hb + 2);
+        scenarios.push(Scenario {
+            hb,
+            dt,
+            misordered: false,
+            hops: rng.range(1, 4) as usize,
+            n_tx: rng.range(1, 3) as usize,
+            variant: *rng.pick(&[-1000i64, -1, -1, 0, 0, 1, 2, 1000]),
+            path_defect: if rng.chance(1, 8) { rng.range(1, 4) as u8 } else { 0 },
+            with_gt: rng.chance(1, 3),
+        });
+    }
+    for (i, sc) in scenarios.iter().enumerate() {
+        let case = offset + i;
+        let before = ctx.summary.case_descs.len();
+        run_gate_scenario(ctx, rng, sc, &keys, &mut cases, case).await;
+        assert_eq!(ctx.summary.case_descs.len(), before + 1);
+    }
+    let header = format!(
+        "From Saito Require Import Base BurnFee Routing.\nDefinition DBG : bool := {}.\nDefinition mk_tx (t : option N * N * list (N * N * bool)) : rtx :=\n  let '(f0, fees, p) := t in mkRtx f0 fees (map (fun h => mkHop (fst (fst h)) (snd (fst h)) (snd h)) p).\nDefinition check (c : (N * list (option N * N * list (N * N * bool)) * N * N * N * N) * (N * bool * bool)) : bool :=\n  let '((creator, txs, bf, ts, prev, hb), (tw, accepted, strict)) := c in\n  (block_total_work creator (map mk_tx txs) =? tw)\n  && match gate_passes DBG tw bf ts prev hb with\n     | Ok g => if strict then Bool.eqb g accepted else implb accepted g\n     | _ => negb accepted\n     end.",
+        gal::boolean(ctx.dbg)
+    );
+    let dir = format!("{}/cases", ctx.args.out);
+    let files = write_shards_off(
+        &dir,
+        "gate",
+        &header,
+        "(N * list (option N * N * list (N * N * bool)) * N * N * N * N) * (N * bool * bool)",
+        &cases,
+        ctx.args.shards,
+        offset,
+    );
+    ctx.files.extend(files);
+
+    // ---------------- payouts
+    let offset = ctx.next_case();
+    let mut cases: Vec<String> = vec![];
+    let n_chains = if thorough { 500 } else { 70 };
+    for _ in 0..n_chains {
+        let first = offset + cases.len();
+        let produced = run_payout_scenario(ctx, rng, &keys, &mut cases, first).await;
+        assert_eq!(offset + cases.len(), first + produced);
+        assert_eq!(ctx.summary.case_descs.len(), offset + cases.len());
+    }
+    let header = format!(
+        "From Saito Require Import Base BurnFee Routing.\nDefinition DBG : bool := {}.\nDefinition T := (option N * N * list (N * N * bool))%type.\nDefinition mk_tx (t : T) : rtx :=\n  let '(f0, fees, p) := t in mkRtx f0 fees (map (fun h => mkHop (fst (fst h)) (snd (fst h)) (snd h)) p).\nDefinition mk_btx (c : N * T) : btx := mkBtx (fst c) false None (mk_tx (snd c)).\nDefinition eqb_slip (a b : N * N * N) : bool :=\n  (fst (fst a) =? fst (fst b)) && (snd (fst a) =? snd (fst b)) && (snd a =? snd b).\nDefinition PREV := ((N * N * bool) * list (N * T) * N * N * option (N * list (N * T) * N * N))%type.\nDefinition check (c : (N * option PREV) * list (N * N * N)) : bool :=\n  let '((miner, prev), outs) := c in\n  match prev with\n  | None => eqb_list eqb_slip (po_slips (payout_with_gt miner None)) outs\n  | Some (hd, txs, x, xb, pp) =>\n      let '(fees, avg, hasgt) := hd in\n      match find_winning_router DBG fees (map mk_btx txs) x xb with\n      | Ok r1 =>\n          let ppr := match pp with\n                     | None => Some None\n                     | Some (ppfees, pptxs, y, yb) =>\n                         match find_winning_router DBG ppfees (map mk_btx pptxs) y yb with\n                         | Ok r2 => Some (Some (ppfees, r2))\n                         | _ => None\n                         end\n                     end in\n          match ppr with\n          | Some pp' => eqb_list eqb_slip (po_slips (payout_with_gt miner (Some (mkPrev fees avg hasgt r1 pp')))) outs\n          | None => false\n          end\n      | _ => false\n      end\n  end.",
+        gal::boolean(ctx.dbg)
+    );
+    let files = write_shards_off(&dir, "pay", &header, "(N * option PREV) * list (N * N * N)", &cases, ctx.args.shards, offset);
+    ctx.files.extend(files);
+}
+
+fn main() {
+    let args = Args::parse();
+    verif_harness::common::init_log();
+    std::panic::set_hook(Box::new(|_| {}));
+    let mut rng = Rng::new(args.seed);
+    let dbg = overflow_checks_on();
+    let mut ctx = Ctx { args, dbg, summary: Summary::new("C08"), files: vec![], distinct: BTreeSet::new() };
+    ctx.summary.notes.push(format!("overflow checks compiled in: {}", dbg));
+    let only = std::env::var("C08_ONLY").unwrap_or_default();
+    if only.is_empty() || only.contains('1') {
+        part1(&mut ctx, &mut rng.fork());
+    }
+    if only.is_empty() || only.contains('2') {
+        part2(&mut ctx, &mut rng.fork());
+    }
+    if only.is_empty() || only.contains('3') {
+        let rt = tokio::runtime::Builder::new_current_thread().enable_all().build().unwrap();
+        let mut r3 = rng.fork();
+        rt.block_on(part3(&mut ctx, &mut r3));
+    }
+    ctx.summary.evaluations = ctx.summary.case_descs.len() as u64;
+    ctx.summary.case_files = ctx.files.clone();
+    let out = ctx.args.out.clone();
+    ctx.summary.write(&out);
+    println!(
+        "C08: {} cases, {} non-trivial, {} oracle failures, {} known hits, {} case files",
+        ctx.summary.evaluations,
+        ctx.summary.nontrivial,
+        ctx.summary.oracle_failures.len(),
+        ctx.summary.known_hits.len(),
+        ctx.files.len()
+    );
 }
